@@ -279,15 +279,11 @@ func work(out, tier string, seed int64) {
 	progStatus, err := comp.Compile(`RETURN DOCUMENT(@url, @p).response.statusCode`)
 	Must(err)
 	distinct := map[[20]byte]struct{}{}
-	f, err := os.Create(filepath.Join(out, "cases.v"))
-	Must(err)
-	w := bufio.NewWriterSize(f, 1<<20)
-	fmt.Fprintln(w, "From Ferret Require Import Http Check.C19.")
-	fmt.Fprintln(w, "Local Open Scope string_scope.")
+	var rRows []string      // one row per request case (split over the case files)
+	w := &strings.Builder{} // the status, response and cancellation sections (first file)
 
 	// ---- request cases
 	var rIdx []interface{}
-	fmt.Fprintln(w, "Definition R : list reqcase := [")
 	for i := 0; i < nReq; i++ {
 		// driver level
 		var dopts []dopt
@@ -408,11 +404,7 @@ func work(out, tier string, seed int64) {
 		}
 		cfgText := fmt.Sprintf("[%s] [%s] (ck %s) (ck %s) (b %s) (b %s)", strings.Join(ds, ";"), strings.Join(qs, ";"),
 			cpairs(dcook, false), cpairs(pcook, false), cs(dua), cs(pua))
-		sep := ";"
-		if i == nReq-1 {
-			sep = ""
-		}
-		fmt.Fprintf(w, " mkReq %s NAMES [%s] %s (%s) %d%%N%s\n", cfgText, strings.Join(obsH, ";"), cpairs(obsC, true), cb(obsUA), len(recs), sep)
+		rRows = append(rRows, fmt.Sprintf(" mkReq %s NAMES [%s] %s (%s) %d%%N", cfgText, strings.Join(obsH, ";"), cpairs(obsC, true), cb(obsUA), len(recs)))
 		if len(dopts)+len(qh)+len(dcook)+len(pcook) > 0 || dua != "" || pua != "" {
 			distinct[sha1.Sum([]byte("R"+cfgText))] = struct{}{}
 		}
@@ -423,7 +415,6 @@ func work(out, tier string, seed int64) {
 			m.Samples = append(m.Samples, desc)
 		}
 	}
-	fmt.Fprintln(w, "].")
 
 	// ---- status cases: every status 200..599 under each rule set
 	type qrule struct {
@@ -554,9 +545,9 @@ func work(out, tier string, seed int64) {
 		outb, rerr := runFQL(progResp, drv, context.Background(), url, map[string]interface{}{})
 		m.Evaluations++
 		var got struct {
-			Code    int                          `json:"code"`
-			First   []interface{}                `json:"first"`
-			All     map[string]string            `json:"all"`
+			Code    int                               `json:"code"`
+			First   []interface{}                     `json:"first"`
+			All     map[string]string                 `json:"all"`
 			Cookies map[string]map[string]interface{} `json:"cookies"`
 		}
 		obsStatus := -1
@@ -600,7 +591,7 @@ func work(out, tier string, seed int64) {
 	fmt.Fprintln(w, "].")
 
 	// ---- cancellation / deadline on a slow response
-	const respMs = 1500
+	const respMs = 2500
 	type can struct {
 		Kind     string
 		CancelMs int
@@ -645,7 +636,7 @@ func work(out, tier string, seed int64) {
 			cancel()
 			elapsed[i] = el.Milliseconds()
 			// bucket: did Run return clearly before the response could have arrived?
-			early[i] = el < time.Duration(respMs-400)*time.Millisecond
+			early[i] = el < time.Duration(respMs-700)*time.Millisecond
 			if rerr != nil {
 				errs[i] = rerr.Error()
 			}
@@ -666,16 +657,30 @@ func work(out, tier string, seed int64) {
 		cIdx = append(cIdx, map[string]interface{}{"kind": c.Kind, "cancel_after_ms": c.CancelMs, "response_after_ms": respMs, "run_returned_after_ms": elapsed[i], "error": errs[i]})
 	}
 	fmt.Fprintln(w, "].")
-	fmt.Fprintf(w, "Definition M := Eval vm_compute in mismatches R S P C.\nPrint M.\n")
-	Must(w.Flush())
-	Must(f.Close())
-	// NAMES / RNAMES are referred to by the rows above: prepend them
-	body, err := os.ReadFile(filepath.Join(out, "cases.v"))
-	Must(err)
-	head := "From Ferret Require Import Http Check.C19.\nLocal Open Scope string_scope.\n"
-	defs := fmt.Sprintf("Definition NAMES := bl %s.\nDefinition RNAMES := bl %s.\n", csl(lookNames), csl(respNames))
-	Must(os.WriteFile(filepath.Join(out, "cases.v"), []byte(head+defs+strings.TrimPrefix(string(body), head)), 0o644))
-	m.Files = []string{"cases.v"}
+	head := "From Ferret Require Import Http Check.C19.\nLocal Open Scope string_scope.\n" +
+		fmt.Sprintf("Definition NAMES := bl %s.\nDefinition RNAMES := bl %s.\n", csl(lookNames), csl(respNames))
+	const perFile = 250
+	for k := 0; k*perFile < len(rRows) || k == 0; k++ {
+		name := fmt.Sprintf("cases%d.v", k)
+		f, err := os.Create(filepath.Join(out, name))
+		Must(err)
+		bw := bufio.NewWriterSize(f, 1<<20)
+		bw.WriteString(head)
+		hi := (k + 1) * perFile
+		if hi > len(rRows) {
+			hi = len(rRows)
+		}
+		fmt.Fprintf(bw, "Definition R : list reqcase := [\n%s\n].\n", strings.Join(rRows[k*perFile:hi], ";\n"))
+		if k == 0 {
+			bw.WriteString(w.String())
+		} else {
+			bw.WriteString("Definition S : list stcase := [].\nDefinition P : list respcase := [].\nDefinition C : list cancase := [].\n")
+		}
+		fmt.Fprintf(bw, "Definition M := Eval vm_compute in mismatches %d%%N R S P C.\nPrint M.\n", k*perFile)
+		Must(bw.Flush())
+		Must(f.Close())
+		m.Files = append(m.Files, name)
+	}
 	m.DistinctNontrivial = len(distinct)
 	m.Index["R"] = rIdx
 	m.Index["S"] = sIdx
